@@ -181,7 +181,30 @@ fn check_printer(acc: &mut Acc, rank: u64, m: &RV, p: &PR) {
         let s = lexpr::print::to_string_custom(&v, p.to_lexpr());
         let b = lexpr::print::to_vec_custom(&v, p.to_lexpr());
         let mut sink = Vec::new();
-        let wres = lexpr::print::to_writer_custom(&mut sink, &v, p.to_lexpr());
+        let mut wres = lexpr::print::to_writer_custom(&mut sink, &v, p.to_lexpr());
+        // "identical to the bytes it writes to a sink": also for a sink that takes 1, 2 or 3 bytes
+        // per call, so that a write is cut inside a multi-byte character
+        for k in 1..=3usize {
+            struct Short(Vec<u8>, usize);
+            impl std::io::Write for Short {
+                fn write(&mut self, buf: &[u8]) -> std::io::Result<usize> {
+                    let n = buf.len().min(self.1);
+                    self.0.extend_from_slice(&buf[..n]);
+                    Ok(n)
+                }
+                fn flush(&mut self) -> std::io::Result<()> {
+                    Ok(())
+                }
+            }
+            let mut sh = Short(Vec::new(), k);
+            let r = lexpr::print::to_writer_custom(&mut sh, &v, p.to_lexpr());
+            if r.is_err() || sh.0 != sink {
+                // report through the comparison below: make the sinks differ
+                sink = sh.0;
+                wres = r;
+                break;
+            }
+        }
         (s, b, wres.map(|_| sink))
     });
     match r {
@@ -352,7 +375,7 @@ pub fn run(ctx: &Ctx) -> Report {
     if ctx.want("printer") {
         let vals = printer_values();
         let total = vals.len() as u64 * N_PR;
-        let sub = Sub::new("printer", "every value of a set (context atoms; all strings <= 2 over the trouble alphabet as string, symbol and keyword; boundary characters; two-leaf shapes) x all 576 printer option sets: the returned String is well-formed UTF-8 and identical to the bytes of to_vec_custom and to_writer_custom", &format!("{} values x 576", vals.len()));
+        let sub = Sub::new("printer", "every value of a set (context atoms; all strings <= 2 over the trouble alphabet as string, symbol and keyword; boundary characters; two-leaf shapes) x all 576 printer option sets: the returned String is well-formed UTF-8 and identical to the bytes of to_vec_custom and to what to_writer_custom delivers to a Vec and to sinks taking 1, 2 and 3 bytes per call", &format!("{} values x 576", vals.len()));
         let accs = par_ranks(total, |rank, acc| {
             let m = &vals[(rank / N_PR) as usize];
             let p = PR::from_index(rank % N_PR);
